@@ -1,23 +1,76 @@
-"""Property → rules registry (see DESIGN.md §4)."""
+"""Property → rules registry (see DESIGN.md §4).  Single source for MANIFEST.json."""
+
+FIX_COMMITS = []
+
+NOT_APPLICABLE = {
+    "C16": "observational equivalence of original and instrumented programs under execution (results, traps, memory/global state, event timing) for every generated program and argument vector: no clause is a fact about the shape of wirm's code beyond what C15/C17-C22 already claim; deciding it needs an interpreter or a semantics-level proof of the lowering, i.e. a different technique family",
+}
+
+TB = ("trusted base: rustc nightly typeck/HIR/MIR and Instance::try_resolve; nightly and stable agree on this crate; "
+      "wasmparser/wasm_encoder behave as their types say; reviewed tables under /verif/tables. ")
+
+
+def P(rules, text, decided, not_decided, technique, level="other"):
+    return {
+        "level": level,
+        "rules": rules,
+        "text": text,
+        "note": TB + "Decided: " + decided + " NOT decided (behavioural remainder, not claimed): " + not_decided,
+        "technique": technique,
+    }
+
+
+TT_WE = ("typetable", "type_table", {"writers": ("wasm_encoder",), "agreement": False})
+TT_BOTH = ("typetable", "type_table", {})
+TT_AUX = ("typetable", "storage_block_heap_tables", {})
+CONSTEXPR = ("constexpr", "constexpr_table", {})
 
 PROPS = {
-    "C01": {
-        "level": "other",
-        "rules": [
-            ("typetable", "type_table", {}),
-            ("typetable", "storage_block_heap_tables", {}),
-        ],
-    },
-    "C08": {
-        "level": "other",
-        "rules": [
-            ("reindex", "refers_exh", {"kind": "memory"}),
-            ("reindex", "fix_op_dispatch", {}),
-        ],
-    },
+    "C01": P([TT_WE, TT_AUX, CONSTEXPR],
+             "necessary-condition lint: every value type of the stated profile survives the reader→writer tables; constant-expression operators are re-emitted as themselves",
+             "R-TYPE-TABLE (wasm_encoder writer), aux tables, R-CONSTEXPR-TABLE.",
+             "that the whole output validates for every module.",
+             "abstract interpretation of match tables over a finite type domain"),
+    "C03": P([("nopanic", "nopanic", {})],
+             "sound over-approximation: every MIR panic edge on a resolved local call path from the four parse roots is enumerated; guard idioms discharge; the rest are reported",
+             "R-NOPANIC over the local call graph (65 functions today), R-PAYLOAD-EXH.",
+             "panics inside dependencies (trusted to honour Result contracts); aborts (OOM/stack).",
+             "MIR panic-edge enumeration + call-graph reachability"),
+    "C04": P([("hashorder", "hashorder", {})],
+             "every hash-order source in the crate is enumerated by resolved receiver type and its consumer classified; no time/env/thread/random call is reachable from encode",
+             "R-HASHORDER (6 sites today) + zero-expected nondeterminism sources on the encode call graph.",
+             "nothing of note for safe single-threaded Rust beyond the enumerated sources.",
+             "resolved-callee enumeration + loop-body effect classification"),
+    "C08": P([("reindex", "refers_exh", {"kind": "memory"}), ("reindex", "fix_op_dispatch", {})],
+             "exhaustiveness of the memory re-index predicate/updater against the Operator ADT of the build",
+             "R-REFERS-EXH(memory), R-FIXOP-DISPATCH.",
+             "that reorganise computes the right permutation for every history; validity of the output.",
+             "ADT-driven match exhaustiveness"),
+    "C15": P([("modes", "mode_field", {}), ("modes", "has_instr_cover", {}), ("modes", "emit_order", {}),
+              ("siblings", "instrumenter_siblings", {})],
+             "structural whole of the plain-mode lowering: mode→list dispatch, has_instr coverage, emission order on every path, sibling agreement of the injection APIs",
+             "R-MODE-FIELD, R-HAS-INSTR, R-EMIT-ORDER, R-SIBLING(instrumenter).",
+             "textual equality on concrete programs (a consequence).",
+             "path enumeration over structured HIR + sibling effect summaries"),
+    "C22": P([("special", "special_flag", {}), ("special", "resolve_clears", {}), ("special", "entry_preserve", {}),
+              ("modes", "mode_field", {}), ("siblings", "instrumenter_siblings", {})],
+             "necessary set: the is-special result is never dropped, lowered lists are cleared with the matching mode, the saved entry body is never overwritten, mode→list dispatch",
+             "R-SPECIAL-FLAG, R-RESOLVE-CLEARS, R-ENTRY-PRESERVE, R-MODE-FIELD, R-SIBLING(instrumenter).",
+             "that every accepted special injection appears in the bytes for every body.",
+             "result-use analysis + guarded-write analysis"),
+    "C24": P([("opcode", "opcode_table", {}), TT_AUX, TT_BOTH],
+             "finite obligations: 200 helpers × {one inject on self, variant = reviewed table, each immediate from one parameter through bit-preserving conversions}; the conversion tables the helpers rely on are decided by R-TYPE-TABLE",
+             "R-OPCODE-TABLE for all helpers, R-TYPE-TABLE(aux) for BlockType/HeapType conversions, writer agreement for DataType.",
+             "Inject::inject implementations (C15/C12) and dependency From impls (trusted).",
+             "abstract interpretation of each helper body; frozen reviewed name→variant table", level="proof"),
+    "C26": P([("siblings", "instrumenter_siblings", {})],
+             "ModuleIterator and ComponentIterator perform the same operation on the same LocalFunction API for every trait method",
+             "R-SIBLING(instrumenter).",
+             "visit-sequence equality over all components and skip maps.",
+             "sibling effect summaries"),
+    "C30": P([CONSTEXPR, TT_BOTH],
+             "bit-exact constant expressions and exact types for module-level additions",
+             "R-CONSTEXPR-TABLE, R-TYPE-TABLE incl. the wasmparser writer used by add_global.",
+             "decoded equality of whole modules.",
+             "abstract interpretation of match tables"),
 }
-PROPS["C30"] = {"level": "other", "rules": [("constexpr", "constexpr_table", {})]}
-PROPS["C15"] = {"level": "other", "rules": [("modes", "mode_field", {}), ("modes", "has_instr_cover", {}), ("modes", "emit_order", {})]}
-PROPS["C26"] = {"level": "other", "rules": [("siblings", "instrumenter_siblings", {})]}
-PROPS["C22"] = {"level": "other", "rules": [("special", "special_flag", {}), ("special", "resolve_clears", {}), ("special", "entry_preserve", {}), ("special", "block_tables", {})]}
-PROPS["C24"] = {"level": "proof", "rules": [("opcode", "opcode_table", {})]}
